@@ -493,25 +493,31 @@ func pipelineJudge(r *R, prog *pnode, res *pResult, plan *faultPlan, sc *pScript
 	}
 
 	// ---- C09: ownership --------------------------------------------------------------------
+	// (evaluated only when C09 is the property being checked: an ownership defect does not disturb
+	// the reference outputs, so it must not end a run of C07/C08 as a sibling's violation would)
 	via := sc.mode
+	ownership := r.Focus == "C09"
 	if via == "iterate" {
 		via = "Close"
 	}
-	if sc.mode != "iterate" && b.spy.Closes == 0 {
+	if ownership && sc.mode != "iterate" && b.spy.Closes == 0 {
 		r.Violate("C09", "close-count/reducer-never-closes/"+sc.mode, "%s returned without closing the stream it was given (program %v)", sc.mode, prog)
 		return
 	}
-	if b.spy.Closes > 1 {
+	if ownership && b.spy.Closes > 1 {
 		r.Violate("C09", "close-count/reducer-closes-twice/"+sc.mode, "%s closed its stream %d times", sc.mode, b.spy.Closes)
 		return
 	}
-	if b.spy.NextAfterClose {
+	if ownership && b.spy.NextAfterClose {
 		r.Violate("C09", "misuse/next-after-close/reducer/"+sc.mode, "%s called Next after Close on the stream it was given", sc.mode)
 		return
 	}
 	// blame the highest construct that did not close exactly once what it was given
 	spies := append([]*closeSpy(nil), b.spies...)
 	sort.SliceStable(spies, func(i, j int) bool { return spies[i].depth < spies[j].depth })
+	if !ownership {
+		spies = nil
+	}
 	for _, sp := range spies {
 		if sp.NextAfterClose {
 			r.Violate("C09", "misuse/next-after-close/"+sp.owner, "%s called Next on its %s input after closing it (program %v)", sp.owner, sp.what, prog)
@@ -527,6 +533,9 @@ func pipelineJudge(r *R, prog *pnode, res *pResult, plan *faultPlan, sc *pScript
 		}
 	}
 	for _, s := range b.srcs {
+		if !ownership {
+			break
+		}
 		if len(s.Violations) > 0 {
 			r.Violate("C09", "misuse/"+s.Violations[0]+"/"+b.owner[s], "source %s (given to %s): %v (program %v)", s.Name, b.owner[s], s.Violations, prog)
 			return
